@@ -3,6 +3,7 @@ import JediModel.Lemmas.Call
 import JediModel.Lemmas.CallArgs
 import JediModel.Lemmas.CallForward
 import JediModel.Lemmas.DocLit
+import JediModel.Lemmas.SigCache
 set_option linter.unusedSimpArgs false
 /-! # C11 — signatures and docstrings mirror the definition; index locates the argument
 
@@ -552,5 +553,104 @@ theorem two_char_sniffing_depends_on_body :
     pyIsDocstring [] = true := by decide
 
 end DocLit
+
+/-! ## histories: the time cache in front of the callee inference (`cache_signatures`)
+
+Every `get_signatures` goes through `signature_time_cache`; its dictionary outlives the Script.  The
+property speaks about each request on its own (`SigCache.demanded`: the callee inferred from the source
+that Script was given), so it must hold for every request of every history. -/
+namespace SigHist
+open JediModel.SigCache
+
+/-- the configuration the source has: what the second key component is, the validity -/
+def genCfg : Cfg :=
+  { textKey := JediModel.Gen.C11.sigKeyMid == "matched-text", validity := JediModel.Gen.C11.sigValidityMs }
+
+/-- `cache_signatures` and `signature_time_cache.wrapper` as `SigCache.whole` / `keyOf` / `call`
+transcribe them (the key tuple itself is classified by the translator: `sigKeyMid`) -/
+theorem gen_signature_cache_shape :
+    JediModel.Gen.C11.cacheSignatures =
+      ["line_index = user_pos[0] - 1", "before_cursor = code_lines[line_index][:user_pos[1]]",
+       "other_lines = code_lines[bracket_leaf.start_pos[0]:line_index]",
+       "whole = ''.join(other_lines + [before_cursor])",
+       "before_bracket = re.match('.*\\\\(', whole, re.DOTALL)",
+       "module_path = context.get_root_context().py__file__()",
+       "if module_path is None or before_bracket is None: yield None else: yield <KEY>",
+       "yield infer(inference_state, context, bracket_leaf.get_previous_leaf())"] ∧
+    JediModel.Gen.C11.sigKeyOuter = ["module_path", "bracket_leaf.start_pos"] ∧
+    JediModel.Gen.C11.signatureTimeCacheWrapper =
+      ["generator = key_func(*args, **kwargs)", "key = next(generator)",
+       "try: expiry, value = dct[key]; if expiry > time.time(): return value except KeyError: pass",
+       "value = next(generator)", "time_add = getattr(settings, time_add_setting)",
+       "if key is not None: dct[key] = (time.time() + time_add, value)", "return value"] := by decide
+
+/-- **histories**: for ALL sequences of requests (any Scripts, paths, contents, cursor positions,
+clock values) against the one global dictionary, every answer is the callee inferred from the source
+of the Script that asks - the signature shown never comes from an earlier version of the file.
+(Holds because the key contains a match object; `genCfg` is read from the source.) -/
+theorem sig_history_every_answer_fresh {V : Type} (reqs : List (Req V)) :
+    run genCfg {} reqs = reqs.map demanded :=
+  run_fresh genCfg (by decide) reqs {} inv_init
+
+example : run genCfg {} [({ path := some "m.py", lines := ["f(".toList], bracket := (1, 1), cursor := (1, 2),
+                            scriptAt := 0, now := 0, fresh := "f(a)" } : Req String),
+                         { path := some "m.py", lines := ["f(".toList], bracket := (1, 1), cursor := (1, 2),
+                            scriptAt := 1, now := 1, fresh := "f(b, c)" }] = [some "f(a)", some "f(b, c)"] := by decide
+
+/-- a request of a Script without path (or whose text before the cursor has no `(`: cursor below the
+line of the bracket) is never served from the dictionary and leaves it alone - for EVERY
+configuration of the key -/
+theorem sig_unkeyed_request_fresh {V : Type} (cfg : Cfg) (st : State V) (rq : Req V) (w : List Char)
+    (hw : whole rq = some w) (hk : rq.path = none ∨ upToLastParen w = none) :
+    (call cfg st rq).1 = some rq.fresh ∧ (call cfg st rq).2.dct = st.dct := by
+  have : keyOf cfg st.nextObj rq w = none := by
+    unfold keyOf
+    rcases hk with h | h
+    · rw [h]
+    · rw [h]; cases rq.path <;> rfl
+  unfold call
+  simp [hw, this]
+
+example : whole ({ path := none, lines := ["f(".toList], bracket := (1, 1), cursor := (1, 2), scriptAt := 0, now := 0,
+                   fresh := () } : Req Unit) = some "f(".toList := by decide
+
+/-- with the matched TEXT in the key the second of two requests that agree on path, text up to the
+last `(` and bracket position is answered with the FIRST request's callee while the entry is valid,
+whatever the rest of the file has become: exact two-step characterisation, all inputs (the clock
+does not run backwards between constructing the second Script and asking it) -/
+theorem sig_text_key_second_answer {V : Type} (cfg : Cfg) (h : cfg.textKey = true) (r1 r2 : Req V)
+    (w1 w2 : List Char) (p : String) (t : List Char)
+    (hw1 : whole r1 = some w1) (hw2 : whole r2 = some w2)
+    (hp1 : r1.path = some p) (hp2 : r2.path = some p)
+    (ht1 : upToLastParen w1 = some t) (ht2 : upToLastParen w2 = some t) (hb : r1.bracket = r2.bracket)
+    (hclock : r2.scriptAt ≤ r2.now) :
+    run cfg {} [r1, r2] =
+      [some r1.fresh, some (if r1.now + cfg.validity > r2.now then r1.fresh else r2.fresh)] := by
+  have k1 : ∀ n, keyOf cfg n r1 w1 = some ⟨p, .text t, r1.bracket⟩ := by
+    intro n; unfold keyOf; rw [hp1, ht1]; simp [h]
+  have k2 : ∀ n, keyOf cfg n r2 w2 = some ⟨p, .text t, r1.bracket⟩ := by
+    intro n; unfold keyOf; rw [hp2, ht2]; simp [h, hb]
+  simp only [run, request, newScript, call, hw1, hw2, k1, k2, lookup, store, List.filter_nil, if_true]
+  by_cases hv : r1.now + cfg.validity > r2.now
+  · have : ¬ (r1.now + cfg.validity < r2.scriptAt) := by omega
+    simp [hv, this, lookup]
+  · by_cases hp : r1.now + cfg.validity < r2.scriptAt <;> simp [hv, hp, lookup]
+
+def witnessBefore : Req String :=
+  { path := some "m.py", lines := ["def f(a): pass\n".toList, "f(".toList], bracket := (2, 1),
+    cursor := (2, 2), scriptAt := 0, now := 0, fresh := "f(a)" }
+def witnessAfter : Req String :=
+  { path := some "m.py", lines := ["def f(b, c): pass\n".toList, "f(".toList], bracket := (2, 1),
+    cursor := (2, 2), scriptAt := 1, now := 1, fresh := "f(b, c)" }
+
+/-- kernel-checked counter-witness of `sig_history_every_answer_fresh` for the text key: the file
+`m.py` is edited (`def f(a)` -> `def f(b, c)`), the call line `f(` stays, the second Script asks one
+tick later and is shown the first definition -/
+theorem sig_text_key_stale_witness :
+    run { textKey := true, validity := 3000 } {} [witnessBefore, witnessAfter] = [some "f(a)", some "f(a)"] ∧
+    demanded witnessAfter = some "f(b, c)" ∧
+    run genCfg {} [witnessBefore, witnessAfter] = [some "f(a)", some "f(b, c)"] := by decide
+
+end SigHist
 
 end JediModel.Props.C11
